@@ -41,9 +41,9 @@ Qed.
 
 (* the sum over the positions: linear in the liquidity *)
 Lemma seg0_linear : forall L x y, (0 < x)%Z -> (x <= y)%Z -> seg_amount0 L x y == qz L * seg_amount0 1 x y.
-Proof. intros. rewrite !seg0_ordered by assumption. change (qz 1) with 1. pose proof (qz_nz x H). pose proof (qz_nz y ltac:(lia)). field. split; assumption. Qed.
+Proof. intros L x y H H0. rewrite (seg0_ordered L x y H H0), (seg0_ordered 1 x y H H0). change (qz 1) with 1. pose proof (qz_nz x H). pose proof (qz_nz y ltac:(lia)). field. split; assumption. Qed.
 Lemma seg1_linear : forall L x y, (x <= y)%Z -> seg_amount1 L x y == qz L * seg_amount1 1 x y.
-Proof. intros. rewrite !seg1_ordered by assumption. change (qz 1) with 1. field. split; [apply q36_nz|apply q18_nz]. Qed.
+Proof. intros L x y H. rewrite (seg1_ordered L x y H), (seg1_ordered 1 x y H). change (qz 1) with 1. field. split; [apply q36_nz|apply q18_nz]. Qed.
 
 Lemma qz_sum_liq : forall f l, qz (sum_liq f l) == qsum_pos (fun p => if f (ps_lower p) (ps_upper p) then qz (ps_liq p) else 0) l.
 Proof.
@@ -82,7 +82,7 @@ Proof.
     assert (LS : (sq (ps_lower p) <= sq (ps_upper p))%Z).
     { pose proof V as V'. apply validate_tick_range_spec in V'. destruct V' as [_ [_ [_ [Bl [Bh Hlh]]]]].
       destruct (tick_to_sqrt_price_defined (ps_lower p) ltac:(lia)) as [sl El]. destruct (tick_to_sqrt_price_defined (ps_upper p) ltac:(lia)) as [su Eh].
-      unfold sq. rewrite El, Eh. apply (tick_to_sqrt_price_mono _ _ _ _ ltac:(lia) ltac:(lia) ltac:(lia) El Eh). }
+      unfold sq. rewrite El, Eh. apply (tick_to_sqrt_price_mono (ps_lower p) (ps_upper p) sl su ltac:(lia) ltac:(lia) ltac:(lia) El Eh). }
     destruct (SIDE x CX p Hp) as [X1 [X2 [X3 X4]]]. destruct (SIDE y CY p Hp) as [Y1 [Y2 [Y3 Y4]]].
     unfold pval0, pval1, val0, val1, f_range.
     destruct (ps_lower p <=? t)%Z eqn:E1; [apply Z.leb_le in E1|apply Z.leb_gt in E1]; simpl.
